@@ -697,7 +697,10 @@ class ExprMixin:
         return fn(st, e, k)
 
     def ev_GeneratorExp(self, st, e, k):
-        raise Unsupported("generator expression")
+        # only consumed by models that know how (str.join): the expression itself is kept
+        if len(e.generators) != 1 or e.generators[0].ifs or e.generators[0].is_async:
+            raise Unsupported("generator expression")
+        return self.ev(st, e.generators[0].iter, lambda s2, it: k(s2, VPy("genexp", e, it)))
 
     def ev_Call(self, st, e, k):
         return self.eval_call(st, e, k)
